@@ -370,6 +370,46 @@ def observer_histories():
                 obs.unschedule_all()
             except Exception:  # noqa: BLE001
                 pass
+    # several producers: two emitters (two watches) of one observer offer entries to the same queue; whatever an emitter does
+    # before it offers an entry, the queue's law holds for the sequence of entries the emitters were asked to queue
+    two = {
+        "emitter 1 offers A, emitter 2 offers B, emitter 1 offers A again": [(1, E1), (2, E2), (1, E1)],
+        "emitter 1 offers A, the consumer takes it, emitter 2 offers B, emitter 1 offers A": [(1, E1), "get", (2, E2), (1, E1)],
+        "emitter 1 offers A twice, emitter 2 offers A (another watch: a different entry), emitter 1 offers A": [(1, E1), (1, E1), (2, E1), (1, E1)],
+    }
+    for name, prog in two.items():
+        obs = BaseObserver(Em, timeout=0.05)
+        try:
+            w1, w2 = obs.schedule(H(), "/p1"), obs.schedule(H(), "/p2")
+            ems = {1: next(e for e in obs.emitters if e.watch == w1), 2: next(e for e in obs.emitters if e.watch == w2)}
+            offered, out, waiting_last = [], [], None
+            want = []
+            for step in prog:
+                if step == "get":
+                    out.append(obs.event_queue.get_nowait())
+                    if waiting_last is not None and out[-1] is waiting_last:
+                        waiting_last = None
+                    continue
+                k, ev = step
+                entry = (ev, ems[k].watch)
+                ems[k].queue_event(ev)
+                if waiting_last is None or entry != waiting_last:
+                    want.append(entry)
+                    waiting_last = entry
+            while True:
+                try:
+                    out.append(obs.event_queue.get_nowait())
+                except queue.Empty:
+                    break
+            if out != want:
+                problems.append(f"{name}: the queue handed out {[(type(e).__name__, w.path) for e, w in out]}, its law gives {[(type(e).__name__, w.path) for e, w in want]} (an entry that was not a consecutive duplicate of a waiting entry is lost)")
+        except Exception as e:  # noqa: BLE001
+            problems.append(f"{name}: {type(e).__name__}: {e}")
+        finally:
+            try:
+                obs.unschedule_all()
+            except Exception:  # noqa: BLE001
+                pass
     return problems
 
 
